@@ -263,22 +263,33 @@ def run(ctx):
     bsd = data.classes.get("_BaseSeriesData") if data else None
     if bsd is None or "index" not in bsd.methods:
         raise AnalysisError("anchor vanished: _BaseSeriesData.index")
-    src = ast.unparse(bsd.methods["index"].node)
+    from sa.idioms import max_plus_one, position_lookup, returned_exprs
+
     cd = data.classes.get("_BaseChartData")
     si = cd.methods.get("series_index") if cd else None
-    si_src = ast.unparse(si.node) if si else ""
-    if "series_index(self)" in src and "enumerate(self)" in si_src and "return idx" in si_src:
+    if si is None:
+        raise AnalysisError("anchor vanished: _BaseChartData.series_index")
+    _fx, rets = returned_exprs(prog, bsd.methods["index"])
+    delegates = len(rets) == 1 and ast.unparse(rets[0]) == "self._chart_data.series_index(self)"
+    pl = position_lookup(prog, si)
+    if not delegates or pl is None:
+        ctx.error("_BaseSeriesData.index", "series.index / series_index not recognised (index returns %s; lookup %s)" % (
+            [ast.unparse(r) for r in rets], pl))
+    elif pl["source"] == "self" and pl["start"] == 0:
         ctx.ok("R7.4", "_BaseSeriesData.index", sample={"index": "position of the series in its chart data"})
     else:
-        ctx.violation("R7.4", "_BaseSeriesData.index", "series.index is not the position of the series in the chart data",
+        ctx.violation("R7.4", "_BaseSeriesData.index", "series.index is not the position of the series in the chart data (%s)" % pl,
                       file=bsd.file, line=bsd.methods["index"].line)
     pa = prog.cls("pptx.oxml.chart.chart", "CT_PlotArea")
     for nm, child in (("next_idx", "idx"), ("next_order", "order")):
         f = pa.methods.get(nm)
         if f is None:
             raise AnalysisError("anchor vanished: CT_PlotArea.%s" % nm)
-        u = ast.unparse(f.node)
-        ok = "max(" in u and "+ 1" in u and "self.sers" in u and ("s.%s.val" % child) in u
+        mp = max_plus_one(prog, f)
+        if mp is None:
+            ctx.error("CT_PlotArea." + nm, "allocator not recognised (expected max(<%s of every series>) + 1)" % child)
+            continue
+        ok = mp["elt"] == "_.%s.val" % child and "self.sers" in mp["via"] + [mp["terminal"]] and not mp["filtered"] and mp["empty"] == 0
         if ok:
             ctx.ok("R7.4", "CT_PlotArea." + nm, sample={"allocator": nm, "population": "self.sers (all plots)", "idiom": "max+1"})
         else:
